@@ -105,4 +105,17 @@ def runChunks {σ : Type} (parse : ParseFn σ) : σ → RB → List Bytes → Li
     | (es, Option.none) => es
     | (es, some (st', rb')) => es ++ runChunks parse st' rb' cs
 
+/-- the reader over deliveries in which `none` marks a CANCELLED read: the `select!` of
+    `SessionTask::run_one` (or of the client's `poll`) dropped the future of `next_frame` while
+    `read_some` was awaiting the transport, i.e. after the index adjustments (reset / compaction)
+    and before any byte was stored.  What survives the drop is `rb.normalize` and the parser
+    state; the next `next_frame` starts from there. -/
+def runChunksC {σ : Type} (parse : ParseFn σ) : σ → RB → List (Option Bytes) → List Event
+  | _, _, [] => []
+  | st, rb, none :: ds => runChunksC parse st rb.normalize ds
+  | st, rb, some c :: ds =>
+    match pump parse (fuelFor rb c) st rb c with
+    | (es, Option.none) => es
+    | (es, some (st', rb')) => es ++ runChunksC parse st' rb' ds
+
 end Rodbus
